@@ -33,6 +33,7 @@ func init() {
 }
 
 func runC01(c *Ctx) {
+	c01P = c.P
 	c.NotArmed("C01.R5", "same obligation as C02.R1 (wait-before-push in the traversal closure); discharged under C02, not duplicated here")
 	c01R1(c)
 	c01R2(c)
@@ -240,6 +241,32 @@ func (m *c01Must) must(v ssa.Value) c01Set {
 // on every successful path under the same media-type assumption.
 func (m *c01Must) viaHelper(call *ssa.Call) (c01Set, bool) {
 	g := StaticCallee(call)
+	if g == nil && !call.Call.IsInvoke() && m.isMT != nil {
+		// decode := table[node.MediaType]; decode(raw): the entry for the assumed media type
+		for _, r := range Roots(call.Call.Value) {
+			var lk *ssa.Lookup
+			switch u := r.(type) {
+			case *ssa.Lookup:
+				lk = u
+			case *ssa.Extract:
+				lk, _ = u.Tuple.(*ssa.Lookup)
+			}
+			if lk == nil {
+				continue
+			}
+			okSubj := true
+			for _, ir := range Roots(lk.Index) {
+				if !m.isMT(ir) {
+					okSubj = false
+				}
+			}
+			if t, okT := c01TableOf(lk.X); okT && okSubj {
+				if ev, in := t.Vals[m.mt]; in && ev != nil {
+					g, _ = c01FuncOfValue(ev)
+				}
+			}
+		}
+	}
 	if g == nil || !inModule(g) || len(g.Blocks) == 0 || m.depth >= 3 || m.isMT == nil || g == m.fn {
 		return c01Set{}, false
 	}
@@ -372,7 +399,11 @@ func c01CoverageOf(fn *ssa.Function, tests []c01StrTest, mt string, isMT func(v 
 }
 
 func c01CoverageDepth(fn *ssa.Function, tests []c01StrTest, mt string, isMT func(v ssa.Value) bool, depth int, params map[*ssa.Parameter]c01Arg) (set c01Set, nReturns int, undecided []string) {
-	m := newC01Must(fn, c01CaseCut(tests, mt), params)
+	k0 := c01CaseCut(tests, mt)
+	if isMT != nil {
+		c01TableCut(fn, mt, isMT, k0)
+	}
+	m := newC01Must(fn, k0, params)
 	k := m.k
 	m.mt, m.isMT, m.depth = mt, isMT, depth
 	acc := c01Set{top: true}
@@ -446,7 +477,7 @@ func c01R1(c *Ctx) {
 	if IM == nil {
 		c.LostAnchor(R, "~/internal/descriptor.IsManifest")
 	} else {
-		a, b := c01TestConsts(c01StrTests(S, isMT)), c01TestConsts(c01StrTests(IM, isMT))
+		a, b := c01DispatchConsts(S, isMT), c01DispatchConsts(IM, isMT)
 		ok := sameStrings(a, b) && len(a) == len(kinds.ByKind)
 		c.Check(R, "~/content.Successors|kind-set-agrees-with|~/internal/descriptor.IsManifest", S.Pos(), ok,
 			fmt.Sprintf("Successors dispatches on %v, IsManifest on %v", kinds.kindsOf(a), kinds.kindsOf(b)))
@@ -600,22 +631,29 @@ func c01R2(c *Ctx) {
 		}
 		foreign[v] = true
 	}
-	tests := c01StrTests(IF, func(v ssa.Value) bool { return c01IsFieldValue(v, descMT) })
+	isMTF := func(v ssa.Value) bool { return c01IsFieldValue(v, descMT) }
+	tests := c01StrTests(IF, isMTF)
+	listed := c01DispatchConsts(IF, isMTF) // switch cases / comparisons and keys of lookup tables
 	var extra []string
 	var eqEdges []Edge
-	for _, t := range tests {
-		if !foreign[t.Const] {
-			extra = append(extra, t.Const)
+	for _, k := range listed {
+		if !foreign[k] {
+			extra = append(extra, k)
 		}
+	}
+	for _, t := range tests {
 		eqEdges = append(eqEdges, t.Eq)
 	}
-	c.Check(RF, nIsForeign+"|media-type-set", IF.Pos(), len(extra) == 0 && len(tests) > 0,
-		ifelse(len(extra) == 0, fmt.Sprintf("only foreign / non-distributable layer media types are classified foreign (%d tests)", len(tests)),
+	c.Check(RF, nIsForeign+"|media-type-set", IF.Pos(), len(extra) == 0 && len(listed) > 0,
+		ifelse(len(extra) == 0, fmt.Sprintf("only foreign / non-distributable layer media types are classified foreign (%d listed)", len(listed)),
 			fmt.Sprintf("media types %v are classified as foreign layers and would be dropped from every copy although the property requires them", extra)))
 	okTrue := true
 	for _, a := range RetAtoms(IF, 0) {
 		if k, ok := a.Val.(*ssa.Const); ok && k.Value != nil && !boolConst(k) {
 			continue // `false`
+		}
+		if _, _, isMember := c01Membership(a.Val, isMTF); isMember {
+			continue // the answer is the table membership of the media type itself
 		}
 		if !AtomMustPass(a, newCut().Edges(eqEdges...)) {
 			okTrue = false
